@@ -33,6 +33,7 @@ func runC12(c *core.Ctx, r *core.Reporter) {
 	c12prec(c, r)
 	c12copy(c, r)
 	c12shared(c, r)
+	c12initform(c, r)
 	c12unbound(c, r)
 	c12slotkey(c, r)
 }
